@@ -124,6 +124,20 @@ def run(tier, seed, t0):
                     grid.append({"dom": n, "layers": [{"g": G0(k, ph, dg), "off": 0}]})
             grid.append({"dom": 2, "layers": [{"g": dict(G0("Ctrl", ph, 0), sub="Rz"), "off": 0}]})
             grid.append({"dom": 2, "layers": [{"g": dict(G0("Ctrl", ph, 0), sub="Rz", subdg=1), "off": 0}]})
+        # every gate followed by its adjoint and preceded by it (g ; g^dagger = id exactly): gates that share a name with
+        # their adjoint (controlled gates, S, T, rotations) occur together in one circuit
+        pairs = []
+        for g in [G0(k, 0, 0) for k in ("H", "X", "Y", "Z", "S", "T", "CX", "CZ", "SWAP")] + \
+                 [G0(k, ph, 0) for k in ("Rx", "Ry", "Rz", "CU1", "CRz", "CRx") for ph in (1, 3)] + \
+                 [dict(G0("Ctrl", 0, 0), sub=sub) for sub in ("X", "Y", "Z", "H", "S", "T")] + [dict(G0("Ctrl", 3, 0), sub="Rz")]:
+            n = 1 if g["k"] in ("H", "X", "Y", "Z", "S", "T", "Rx", "Ry", "Rz") else 2
+            if g["k"] == "Ctrl":
+                gd = dict(g, subdg=1)
+            else:
+                gd = dict(g, dg=1)
+            pairs.append({"dom": n, "layers": [{"g": g, "off": 0}, {"g": gd, "off": 0}]})
+            pairs.append({"dom": n, "layers": [{"g": gd, "off": 0}, {"g": g, "off": 0}]})
+        grid += pairs
         if tier == "quick":
             grid = [x for k, x in enumerate(grid) if -4 <= x["layers"][0]["g"]["ph"] <= 17]
         sample = sample + grid
